@@ -91,7 +91,9 @@ def is_single_crossing(instance: OrdinalInstance):
         array = [[] for _ in range(-(m**2), m**2 + 1)]
         for order in orders:
             array[int(scores[order] + m**2)].append(order)
-        # line 6: XOR on all the elements of B_arr
+        # two distinct orders with the same score cannot both fit in a single-crossing sequence
+        if any(len(elem) > 1 for elem in array):
+            return False, None
         voters_order = [elem[0] for elem in array if elem != []]
 
     # check if the computed order is single-crossing
